@@ -310,40 +310,10 @@ def readerAxis (in1 d1 in2 d2 c : Int) : Int × Int :=
       ((out1 - c) * (i2 - i1) + (c - i1) * (out2 - out1), i2 - i1)
   else (0, 1)                              -- untouched: inferred delta is zero
 
-/-- state of the reader for one contour: per point `some delta` (explicit) or `none` -/
-def nextHas (has : List Bool) : Nat → Nat → Nat → Option Nat
-  | 0, _, _ => none
-  | fuel + 1, i, hi => if i > hi then none else if has.getD i false then some i else nextHas has fuel (i + 1) hi
-
 /-- inferred delta of point `k` from references `a`, `b` (both axes), reader arithmetic -/
 def readerPoint (cs ds : List Pt) (a b k : Nat) : (Int × Int) × (Int × Int) :=
   (readerAxis (getP cs a).1 (getP ds a).1 (getP cs b).1 (getP ds b).1 (getP cs k).1,
    readerAxis (getP cs a).2 (getP ds a).2 (getP cs b).2 (getP ds b).2 (getP cs k).2)
-
-/-- `interpolate_deltas` for one contour `first ..= last` (absolute indices): for every point the
-resulting delta as fractions.  `has` marks the points with explicit deltas, `ds` their values.
-Structure as in the Rust: find the first delta; walk forward interpolating between consecutive
-explicit points; one delta only → shift; otherwise wrap around from the last to the first. -/
-def readerContour (cs ds : List Pt) (has : List Bool) (first last : Nat) :
-    List ((Int × Int) × (Int × Int)) :=
-  let idxs := (List.range (last + 1 - first)).map (· + first)
-  let explicit := idxs.filter fun i => has.getD i false
-  match explicit with
-  | [] => idxs.map fun _ => ((0, 1), (0, 1))
-  | [r] =>
-    -- `shift`: every other point moves by the reference delta
-    idxs.map fun _ => (((getP ds r).1, 1), ((getP ds r).2, 1))
-  | f :: _ =>
-    let l := explicit.getLastD f
-    idxs.map fun k =>
-      if has.getD k false then (((getP ds k).1, 1), ((getP ds k).2, 1))
-      else
-        -- nearest explicit neighbours; before the first / after the last: (last, first)
-        let prev := (explicit.filter (· < k)).getLast?
-        let next := (explicit.filter (· > k)).head?
-        match prev, next with
-        | some a, some b => readerPoint cs ds a b k
-        | _, _ => readerPoint cs ds l f k
 
 /-! ## reader side, loop-faithful: skrifa `interpolate_deltas::<i32, Fixed>` with its 16.16
 arithmetic (`Fixed` add/sub wrap, `Mul`/`Div` round as in font-types).  Working points are raw
@@ -471,5 +441,19 @@ def readerInterpolate (pts : List Pt) (has : List Bool) (ends : List Nat) (out :
   match readerCalls has pts.length ends 0 [] with
   | none => none
   | some calls => some (calls.foldl (applyCall pts) out)
+
+/-- does call `c` write point `k`? (`shift` skips its reference point) -/
+def covers (c : Call) (k : Nat) : Bool :=
+  decide (c.lo ≤ k) && decide (k ≤ c.hi) && !(c.shift && decide (k = c.r1))
+
+/-- the delta `interpolate_deltas` gives point `k`, with the calls of the loop-faithful model but
+the per-point arithmetic done exactly (`readerAxis`; `shift(r)` is `interpolate` with both
+references `r`): the stored delta for an explicit point, zero for a point no call writes. -/
+def readerExactAt (cs ds : List Pt) (has : List Bool) (calls : List Call) (k : Nat) :
+    (Int × Int) × (Int × Int) :=
+  if has.getD k false then (((getP ds k).1, 1), ((getP ds k).2, 1)) else
+  match calls.find? (fun c => covers c k) with
+  | some c => readerPoint cs ds c.r1 c.r2 k
+  | none => ((0, 1), (0, 1))
 
 end FontVerif.Iup
